@@ -42,14 +42,17 @@ def nano_sleep(rng, d):
     names = list(d["phases"])
     for c in d["comps"]:
         if c["kind"] in ("converter", "linreg", "pswitch", "pmux"):
-            c["args"]["iis"] = float("%.3g" % (10.0 ** -rng.uniform(8.3, 11.0)))
+            c["args"]["iis"] = float("%.3g" % (10.0 ** -rng.uniform(6.3, 11.0)))
             if not isinstance(c.get("pconf"), list) or not c["pconf"] or set(names) <= set(c["pconf"]):
                 if rng.random() < 0.6 and len(names) >= 2:
                     c["pconf"] = rng.sample(names, rng.randint(1, len(names) - 1))
                     if ((d.get("_build") or {}).get("retouch") or {}).get("x") == c["name"]:
                         d["_build"].pop("retouch")          # that plan is for a component WITHOUT a phase configuration
-    if rng.random() < 0.7:
+    r = rng.random()
+    if r < 0.4:
         d["_solve_kw"] = {}
+    elif r < 0.75:
+        d["_solve_kw"] = {"vtol": 1e-4, "itol": 1e-4}       # a caller who trades accuracy for speed: relative tolerances only scale with the value
 
 
 def moved_into_dead(rng, d):
